@@ -5,6 +5,7 @@ import (
 	"encoding/json"
 	"flag"
 	"fmt"
+	"golang.org/x/tools/go/ssa"
 	"os"
 	"path/filepath"
 	"regexp"
@@ -195,6 +196,17 @@ func cmdCheck(args []string) int {
 		engines[cfgName], engineErr[cfgName] = e, err
 		return e, err
 	}
+	// units with the same load configuration and kind filter are verified as one batch (all their functions
+	// compete for the same worker pool), in the order of their first unit
+	type batch struct {
+		e      *Engine
+		kinds  string
+		fns    []*ssa.Function
+		seen   map[string]bool
+		lemmas []string
+	}
+	var batches []*batch
+	batchOf := map[string]*batch{}
 	for ui, u := range spec.Units {
 		if u.Tier == "thorough" && *tier != "thorough" {
 			continue
@@ -210,19 +222,37 @@ func cmdCheck(args []string) int {
 			fmt.Printf("VIOLATION property=%s replay=%s load-failed no-failing-input-found\n", *prop, writeReplay(replayDir, "load-failed", map[string]interface{}{"error": err.Error()}))
 			return 1
 		}
-		var kindRe *regexp.Regexp
-		if u.Kinds != "" {
-			kindRe = regexp.MustCompile(u.Kinds)
-		}
-		e.kindFilter = kindRe
-		seen := map[string]bool{}
-		var fns = e.selectFuncsMulti(u.Funcs, seen)
+		fns := e.selectFuncsMulti(u.Funcs, map[string]bool{})
 		if len(fns) < u.Expect {
 			msg := fmt.Sprintf("unit %d selected %d functions, expected at least %d (a function under contract disappeared)", ui, len(fns), u.Expect)
 			fmt.Fprintln(os.Stderr, msg)
 			fmt.Printf("VIOLATION property=%s replay=%s functions-missing no-failing-input-found\n", *prop, writeReplay(replayDir, "functions-missing", map[string]interface{}{"error": msg}))
 			violations++
 		}
+		bk := u.Config + "\x00" + u.Kinds
+		b := batchOf[bk]
+		if b == nil {
+			b = &batch{e: e, kinds: u.Kinds, seen: map[string]bool{}}
+			batchOf[bk] = b
+			batches = append(batches, b)
+		}
+		for _, f := range fns {
+			if !b.seen[f.String()] {
+				b.seen[f.String()] = true
+				b.fns = append(b.fns, f)
+			}
+		}
+		b.lemmas = append(b.lemmas, u.Lemmas...)
+	}
+	for _, bt := range batches {
+		e := bt.e
+		var kindRe *regexp.Regexp
+		if bt.kinds != "" {
+			kindRe = regexp.MustCompile(bt.kinds)
+		}
+		e.kindFilter = kindRe
+		fns := bt.fns
+		u := struct{ Lemmas []string }{bt.lemmas}
 		results := e.verifyAll(fns, cfg, *par)
 		for _, r := range results {
 			allFuncs = append(allFuncs, r)
